@@ -388,11 +388,19 @@ class Repo:
                 f = self.lookup_method(c, fn)
             if f is None:
                 raise AnalysisError("anchor method vanished: %s::%s" % (relpath, qualname))
+            self._note(f)
             return f
         f = m.functions.get(qualname)
         if f is None:
             raise AnalysisError("anchor function vanished: %s::%s" % (relpath, qualname))
+        self._note(f)
         return f
+
+    def _note(self, f):
+        """A rule asked for this function by name: it is part of what the running check analyses."""
+        cb = getattr(self, "on_func", None)
+        if cb is not None:
+            cb(f)
 
     def try_func(self, relpath, qualname):
         try:
